@@ -201,6 +201,37 @@ def edit_member(data: bytes, edit: list) -> bytes:
             m = ms[edit[1] % len(ms)]
             return data[:m.start()] + data[m.end():]
         return data
+    if k == "xml_empty":
+        sp = _elements(data)
+        if len(sp) > 1:
+            st, e = sp[1 + edit[1] % (len(sp) - 1)]
+            m = _TAG.match(data, st)
+            if m and not m.group(4):
+                close = data.rfind(b"</", st, e)
+                if close > m.end():
+                    return data[:m.end()] + data[close:]
+        return data
+    if k == "attr_mangle":
+        ms = list(re.finditer(rb'([\w:.\-]+)="([^"]+)"', data))
+        if ms:
+            m = ms[edit[1] % len(ms)]
+            v = bytearray(m.group(2))
+            pos = edit[2] % len(v)
+            act = edit[3]
+            if act == "dup":
+                v[pos:pos] = v[pos:pos + 1]
+            elif act == "del":
+                del v[pos]
+            elif act == "dot":
+                v[pos:pos] = b"."
+            elif act == "minus":
+                v[pos:pos] = b"-"
+            elif act == "letter":
+                v[pos] = ord("x")
+            elif act == "space":
+                v[pos:pos] = b" "
+            return data[:m.start(2)] + bytes(v) + data[m.end(2):]
+        return data
     if k == "u16" or k == "u32":
         w = 2 if k == "u16" else 4
         if len(data) >= w:
@@ -214,7 +245,11 @@ def edit_member(data: bytes, edit: list) -> bytes:
 def gen_edit(rng, data: bytes) -> list:
     is_xml = data[:200].lstrip()[:1] == b"<"
     if is_xml and rng.random() < 0.75:
-        k = rng.choice(["xml_del", "xml_del", "xml_dup", "xml_nest", "num_attr", "num_attr", "del_attr"])
+        k = rng.choice(["xml_del", "xml_del", "xml_dup", "xml_nest", "num_attr", "num_attr", "del_attr", "xml_empty", "attr_mangle", "attr_mangle"])
+        if k == "xml_empty":
+            return ["xml_empty", rng.randrange(1 << 20)]
+        if k == "attr_mangle":
+            return ["attr_mangle", rng.randrange(1 << 20), rng.randrange(1 << 10), rng.choice(["dup", "del", "dot", "dot", "minus", "letter", "space"])]
         if k == "xml_del":
             return ["xml_del", rng.randrange(1 << 20)]
         if k == "xml_dup":
